@@ -51,6 +51,13 @@ def check(ws, req, out, case, nontrivial, classes):
 def shard(arg):
     out = Outcome()
     with WorkerSet(INTERPS, hooks=False) as ws:
+        for how in arg.get("orphans", []):
+            for depth in (0, 2):
+                case = {"orphan": how, "depth": depth}
+                v = check(ws, {"op": "green.orphan", "how": how, "depth": depth}, out, case, True,
+                          ["orphan_greenlet", "orphan_greenlet." + how])
+                if v:
+                    out.violation(v[0]["desc"], case, "3.12", obs=v[0].get("obs"))
         for depth in arg["gb_depths"]:
             case = {"greenback_depth": depth}
             v = check(ws, {"op": "green.greenback", "depth": depth}, out, case, depth >= 2, ["greenback", "greenback.depth.%d" % depth])
@@ -90,7 +97,8 @@ def run(ctx):
     nshards = ctx.pick(6, 16)
     depths = list(range(0, 6))
     args = [{"seed": ctx.shard_seed(i), "n": ctx.pick(240, 24000) // nshards, "shrink": not ctx.quick,
-             "gb_depths": depths[i::nshards], "other_thread": i == 0} for i in range(nshards)]
+             "gb_depths": depths[i::nshards], "other_thread": i == 0,
+             "orphans": ["dead", "unstarted", "dead_below_live"] if i == 1 else []} for i in range(nshards)]
     out = run_shards("checks.c15", "shard", args)
     out.extra["interpreters"] = INTERPS
     return out
@@ -102,8 +110,10 @@ def replay(ctx, data):
     with WorkerSet(INTERPS, hooks=False) as ws:
         if "greenback_asyncio_depth" in case:
             req = {"op": "green.greenback_asyncio", "depth": case["greenback_asyncio_depth"], "error_resume": case["error_resume"]}
+        elif "orphan" in case:
+            req = {"op": "green.orphan", "how": case["orphan"], "depth": case.get("depth", 2)}
         elif "greenback_depth" in case:
-            req = {"op": "green.greenback", "depth": case["greenback_depth"]}
+            req = {"op": "green.greenback", "depth": case["greenback_depth"], "spawn": case.get("spawn", 0)}
         elif "other_thread" in case:
             req = {"op": "green.other_thread"}
         else:
